@@ -94,6 +94,17 @@ def showOwnPatch (obj : String) (p : PatchAction × OpId) : String :=
    | .deleteMap k => s!"dm:{showKey k}"
    | _ => "?")
 
+/-- an own-level list patch in the harness's canonical text -/
+def showSeqPatch (obj : String) (p : SeqPatch) : String :=
+  let b (x : Bool) : String := if x then "1" else "0"
+  obj ++ "/-/" ++
+  (match p with
+   | .insert i vs => s!"in:{i}:" ++ joinWith "|" (vs.map (fun x => s!"{showPVal x.1},{showId x.2.1},{b x.2.2}"))
+   | .put i v id c => s!"ps:{i}:{showPVal v}:{showId id}:{b c}"
+   | .inc i n => s!"inc:i{i}:{n}"
+   | .conflict i => s!"cf:i{i}"
+   | .del i n => s!"ds:{i}:{n}")
+
 def setActor (st : State) (r : String) (a : Bytes) : State :=
   { st with actors := (r, a) :: st.actors.filter (fun p => p.1 != r) }
 
@@ -137,6 +148,9 @@ def exec (st : State) (toks : List String) : State × List String :=
       | some .map =>
         let ps := diffMapObj (d.at hs1).ops (d.at hs2).ops d.ops o
         (st, [s!"patches {if ps.isEmpty then "-" else joinWith ";" (ps.map (showOwnPatch obj))}"])
+      | some .list =>
+        let ps := diffListObj (d.at hs1).ops (d.at hs2).ops d.ops o
+        (st, [s!"patches {if ps.isEmpty then "-" else joinWith ";" (ps.map (showSeqPatch obj))}"])
       | _ => (st, ["skip"])
     | _, _, _ => (st, ["bad-input"])
   | "crdt.patch.diff" :: _ => (st, ["skip"])
